@@ -80,8 +80,9 @@ PROPS["C12"] = dict(
 )
 
 PROPS["C13"] = dict(
-    modules=["Proofs.C13"],
-    theorems=["Goflow.C13.varint_roundtrip", "Goflow.C13.frame_split", "Goflow.C13.stream_of_messages"],
+    modules=["Proofs.C13", "Proofs.C13Json"],
+    theorems=["Goflow.C13.varint_roundtrip", "Goflow.C13.frame_split", "Goflow.C13.stream_of_messages",
+              "Goflow.C13.jsonQuoteBody_closed", "Goflow.C13.jsonQuote_valid", "Goflow.C13.utf8_plain"],
     generators=[dict(name="C13", quick=40, thorough=1500)],
     harness=["impl"],
 )
